@@ -170,7 +170,7 @@ def sessStep (s : S) (f : List String) : S × List String :=
     let (s, extra) := if wake then wakeReader s else (s, [])
     let (s, evs) := flush s
     (s, evs ++ res ++ extra)
-  if s.noClient && ["rs", "readall", "pal", "peo", "call", "quit", "close", "disconnect", "counters", "txn", "backoff"].contains (f.headD "") then
+  if s.noClient && ["rs", "readall", "pal", "peo", "call", "quit", "close", "disconnect", "counters", "txn", "backoff", "sig"].contains (f.headD "") then
     (s, ["noclient"]) else
   match f with
   | ["bufsize", n] => match n.toNat? with
@@ -363,6 +363,7 @@ def sessStep (s : S) (f : List String) : S × List String :=
   | ["exread"] =>
     let late := s.heldEx.foldl (fun acc e => insertLate e acc) []
     done { s with holdEx := false, heldEx := [] } (late.map evLine) false
+  | ["sig"] => (s, [s!"sig online={if s.online then 1 else 0} offline={if s.online then 0 else 1}"])
   | ["counters"] =>
     -- the harness does not probe the counters while a writer stands at the write gate (the sequence tokens may be held)
     if s.held.isSome then (s, ["counters stalled"]) else (s, [ctrLine s])
